@@ -61,7 +61,7 @@ def write_model(d: str, base: str, defs: dict, overrides: dict, invariants=(), p
     defs: constant name -> python value (becomes `<name>Def == literal` and `name <- nameDef`)
     overrides: constant name -> operator name defined in `base` (`name <- op`)"""
     lines = ["---- MODULE Run ----", f"EXTENDS {base}", ""]
-    cfg = ["CONSTANTS", "  NULL = NULL", "  UNDEF = UNDEF"]
+    cfg = ["CONSTANTS", "  NULL = NULL", "  UNDEF = UNDEF", "  ANY = ANY"]
     for k, v in defs.items():
         lines.append(f"{k}Def == {tla_lit(v)}")
         cfg.append(f"  {k} <- {k}Def")
